@@ -38,10 +38,25 @@ def build(prog, into=None):
     from CircuitCalculator.SimpleCircuit import Elements as elm
     d = into if into is not None else elm.Schematic(unit=prog['unit'], show=False)
     placed = []
+    # number types: some drawings give their symbol values as Python ints (R=10) or numpy scalars instead of floats
+    from .. import netdesc
+    nt = prog.get('number_type')
+    if nt is None and 'number_type' not in prog:
+        k = (len(prog['symbols']) * 5 + sum(len(str(s.get('name', ''))) for s in prog['symbols'])) % 8
+        nt = ('int', 'numpy', 'numpy')[k] if k < 3 else None       # no numpy integers: the json module cannot write them (not the library's business)
+    netdesc._NUMBER_TYPE[0] = nt
+    try:
+        return _build(prog, d, elm, placed)
+    finally:
+        netdesc._NUMBER_TYPE[0] = None
+
+
+def _build(prog, d, elm, placed):
+    from ..netdesc import typed
     with d:
         for s in prog['symbols']:
             cls = getattr(elm, s['sym'])
-            args = {k: (complex(*v) if isinstance(v, list) else v) for k, v in s.get('args', {}).items()}
+            args = {k: (typed(complex(*v)) if isinstance(v, list) else (v if isinstance(v, bool) else typed(v))) for k, v in s.get('args', {}).items()}
             if s['sym'] == 'Switch':
                 args['state'] = elm.SwitchState.CLOSED if args.pop('closed') else elm.SwitchState.OPEN
             if s['sym'] == 'Line':
